@@ -529,8 +529,13 @@ frag_name = st.text(alphabet="abcdefXYZ0123456789_-. ", max_size=9).map(
 
 @st.composite
 def link_cases(draw):
-    labels = draw(st.lists(st.integers(0, 2 ** 40), min_size=1, max_size=6,
-                           unique=True))
+    # segment identifiers are uint64: include labels no float64 can hold
+    label = st.one_of(
+        st.integers(0, 2 ** 40), st.integers(0, 300),
+        st.sampled_from([2 ** 53 + 1, 2 ** 53 + 3, 2 ** 63 + 1, 2 ** 64 - 1,
+                         2 ** 64 - 2, 2 ** 32, 2 ** 32 - 1]),
+        st.integers(2 ** 53, 2 ** 64 - 1))
+    labels = draw(st.lists(label, min_size=1, max_size=6, unique=True))
     table = [[lab, draw(st.lists(frag_name, max_size=4))] for lab in labels]
     return {"table": table, "no_colon": draw(st.booleans()),
             "mesh_dir": draw(st.sampled_from(["mesh", "m/sub"])),
@@ -619,14 +624,14 @@ CHECKS = {"layout": check_layout, "reader": check_reader,
           "links": check_links}
 
 SUBS = [
-    Sub("layout", run_layout, check_layout, quick=2500, thorough=80000),
+    Sub("layout", run_layout, check_layout, quick=2500, thorough=160000),
     Sub("layout_large", run_layout_large, check_layout, quick=24,
-        thorough=400, shards=6),
-    Sub("reader", run_reader, check_reader, quick=4000, thorough=150000),
-    Sub("affine", run_affine, check_affine, quick=2500, thorough=80000),
-    Sub("convert", run_convert, check_convert, quick=300, thorough=6000),
-    Sub("vtk", run_vtk, check_vtk, quick=1500, thorough=40000),
-    Sub("links", run_links, check_links, quick=400, thorough=8000),
+        thorough=800, shards=6),
+    Sub("reader", run_reader, check_reader, quick=4000, thorough=300000),
+    Sub("affine", run_affine, check_affine, quick=2500, thorough=160000),
+    Sub("convert", run_convert, check_convert, quick=300, thorough=12000),
+    Sub("vtk", run_vtk, check_vtk, quick=1500, thorough=80000),
+    Sub("links", run_links, check_links, quick=400, thorough=16000),
     Sub("atheris", run_atheris, check_reader, quick=40000, thorough=120,
         serial=True),
 ]
